@@ -5,9 +5,18 @@
 import NutsModel.C04.Headers
 import NutsModel.Facts.C04
 import NutsProofs.Props.C04
+import NutsProofs.Props.C04L
 
 namespace Nuts.C04.Props
 open Nuts.C04
+
+/-- authenticationCredential reads ONE request header, "Authorization", through Header.Get (first value), and nothing else of the
+    request; its three conditions and four returns are the ones `authenticationCredential` / `headerGet` of the model mirror
+    (regenerated from the source on every run) -/
+theorem fact_authentication_credential :
+    Facts.C04.authHeaderReads = ["Get:\"Authorization\""] ∧
+    Facts.C04.authCredentialConds = ["credential == \"\"", "len(fields) != 2", "strings.ToLower(fields[0]) != \"bearer\""] ∧
+    Facts.C04.authCredentialReturns = ["return \"\"", "return \"\"", "return \"\"", "return fields[1]"] := by decide
 
 /-- the FIRST line named `key` decides what `Header.Get` returns: whatever follows it is never looked at -/
 theorem headerGet_first (key : Str) (pre post : List Str) (l : Str)
@@ -85,6 +94,38 @@ theorem header_block_granted_sound (aud : String) (keys : List AuthKey) (now : I
     rw [headerGet_first _ pre post l hp hl] at h
     have gs := granted_sound aud keys now hnow _ _ u h
     exact ⟨pre, l, post, rfl, hp, hl, h, gs.1, gs.2.2.2.2.2.2.1, gs.2.2.2.2.2.2.2.2.2.1⟩
+
+/-- **no_bypass_header_block** (request line + header block -> handler, on the chain with the limiter): for ALL header blocks
+    (any lines: folded, malformed, repeated, look-alike names), authority verdicts, registrations, limiter states, methods and
+    targets, a handler under /internal runs only if net/http accepts the block, the value v of its first Authorization line is
+    granted as some user u, and the handler sees exactly u; a block net/http refuses runs nothing -/
+theorem no_bypass_header_block (aud : String) (keys : List AuthKey) (now : Int) (an : Str → Analysis)
+    (authOK : Str → Bool) (lim : LimCfg) (regs : List Registered) (lines : List Str) (method : String) (target : Str) (b i : Nat)
+    (hran : (serveConnH Facts.C04.policy aud keys now an authOK Facts.C04.authSelector Facts.C04.authPath true lim regs lines method target b).1.ran = some i)
+    (hint : ∀ r ∈ regs.map (·.route), r.id = i → underInternal r) :
+    ∃ v u, headerValue authorizationKey lines = some v ∧ tokenDecision Facts.C04.policy aud keys now v (an v) = .granted u ∧
+      (serveConnH Facts.C04.policy aud keys now an authOK Facts.C04.authSelector Facts.C04.authPath true lim regs lines method target b).1.user = some u := by
+  unfold serveConnH at hran ⊢
+  cases hv : headerValue authorizationKey lines with
+  | none => simp [hv] at hran
+  | some v =>
+    simp only [hv] at hran ⊢
+    obtain ⟨u, hu, huser⟩ := no_bypass_limited authOK lim regs _ method target b i hran hint
+    exact ⟨v, u, rfl, hu, huser⟩
+
+/-- a header block that net/http refuses is answered 400 and leaves the limiter's bucket alone -/
+theorem malformed_block_runs_nothing (P : Policy) (aud : String) (keys : List AuthKey) (now : Int) (an : Str → Analysis)
+    (authOK : Str → Bool) (sel : Selector) (authPath : Str) (authOn : Bool) (lim : LimCfg) (regs : List Registered)
+    (lines : List Str) (method : String) (target : Str) (b : Nat) (h : headerValue authorizationKey lines = none) :
+    serveConnH P aud keys now an authOK sel authPath authOn lim regs lines method target b =
+      ({ status := 400, ran := none, user := none }, b) := by
+  unfold serveConnH; simp [h]
+
+/-- non-vacuity / shapes of the harness: obs-fold re-assembles a credential; blank before the colon, no colon: refused -/
+example : headerValue authorizationKey ["Host: h".toList, "Authorization: Bearer".toList, "  abc".toList] = some "Bearer abc".toList := by decide
+example : headerValue authorizationKey ["Authorization : Bearer abc".toList] = none := by decide
+example : headerValue authorizationKey [" folded".toList, "Authorization: Bearer abc".toList] = none := by decide
+example : headerValue authorizationKey ["Authorization_: x".toList, "authorization: Bearer abc".toList] = some "Bearer abc".toList := by decide
 
 /-- non-vacuity / the shapes of the harness: lower-case name, no blank after the colon, blanks and tabs around the value,
     a second line, look-alike names -/
